@@ -20,6 +20,15 @@ struct StorageCfg {
     std::string str() const { return lwork > 0 ? fmt("fill=%d USER lwork=%ld base%%8=%d", fill, lwork, misalign) : fmt("fill=%d SYSTEM", fill); }
 };
 
+// Workspace base offset: 0 (8-byte aligned) or 4.  Known finding F20: with 64-bit indices the int_t arrays carved from a
+// 4-byte aligned workspace are accessed misaligned (undefined behaviour, flagged by UBSan); routed to aligned while open.
+inline int pick_misalign(bool want4, Ctx &cx)
+{
+    if (!want4) return 0;
+    if (sizeof(int_t) == 8 && cx.is_known("F20")) { cx.exclude("F20"); return 0; }
+    return 4;
+}
+
 struct FactorOutcome {
     bool aborted = false; std::string abort_msg;
     long long info = -999;
